@@ -302,8 +302,8 @@ global size_of usize == 8;
 //@at /let mut idx: usize = 0; while idx < queue\.len\(\) \{/ before
                     proof {
                         // queue is not empty and its last value ends after insert_val starts: the value cannot go at the back
+                        if q0.len() > 0 { lemma_queue_front_back(q0); }
                         assert(q0.len() > 0);
-                        let _ = q0[0]; let _ = q0[q0.len() - 1];
                     }
 //@loop 2
                         invariant
@@ -313,8 +313,14 @@ global size_of usize == 8;
                         decreases
                             [[L: insert/scan_termination]]
                             queue.len() - idx,
-//@at /queue\.insert\(idx, insert_val\);/ after
-                            proof { assert(queue@ =~= seq![next_val] + q0); }
+//@at /^\s*return;\s*$/ nth=1 before
+                        proof {
+                            if q0.len() > 0 { lemma_queue_front_back(q0); }
+                            assert(q0.len() == 0); [[L: insert/back_push_only_on_an_empty_queue]]
+                            assert(queue@ =~= seq![next_val] + q0);
+                        }
+//@at /^\s*return;\s*$/ nth=2 before
+                            proof { assert(queue@ =~= seq![next_val] + q0); } [[L: insert/front_insert_keeps_everything_else_in_place]]
 //@end
 
 // =====================================================================================
@@ -463,10 +469,9 @@ impl ValueIter {
                 assert(h0.wins.is_prefix_of(self.hist@.wins));
             }
             let ghost runs_out = next_sections@;
-//@at /^\s*if let Some\(last\) = last_val \{/ before
             proof {
-                if last_val is Some {
-                    assert(runs_out.len() > 0 ==> last_val->Some_0.end <= runs_out[0].start); [[L: call_site/held_back_value_ends_at_or_before_first_new_run]]
+                if lv0 is Some {
+                    assert(runs_out.len() > 0 ==> lv0->Some_0.end <= runs_out[0].start); [[L: call_site/held_back_value_ends_at_or_before_first_new_run]]
                 }
             }
 //@at /^\s*if !next_sections\.is_empty\(\) \{/ nth=1 before
